@@ -327,7 +327,7 @@ def _group_positions(lc, ai_arr, ai_n, res):
                                                                                      asel(res.arr, pos[first] - ai_n) == first)))]
     return inst0 + [('earlier_items_keep_a_valid_position', ForAll([x], Implies(was(x), Or(And(pos[x] == pos0[x]),
                                                                                  And(ai_n <= pos[x], pos[x] < ai_n + res.n, asel(res.arr, pos[x] - ai_n) == x))))),
-            ('group_items_know_their_future_position', ForAll([j], Implies(And(0 <= j, j < res.n),
+            ('own:group_items_know_their_future_position', ForAll([j], Implies(And(0 <= j, j < res.n),
                                                        And(ai_n <= pos[asel(res.arr, j)], pos[asel(res.arr, j)] < ai_n + res.n,
                                                            asel(res.arr, pos[asel(res.arr, j)] - ai_n) == asel(res.arr, j))))),
             ('the_list_itself_is_untouched', And(ai_n == seq_of(lc.entry_local('all_inputs'), lc.entry.st)[1], ai_arr == seq_of(lc.entry_local('all_inputs'), lc.entry.st)[0]))]
